@@ -1,4 +1,6 @@
 """C13 TL2 readers tolerate schema evolution and non-minimal encodings (engine A; structure from the interpreter's byte roles)."""
+import os
+
 from .. import codec, refdiff
 
 RULE = ("packages generated from the repository schemas and random SchemaGen schemas. Outermost object (schema-free): size in huge (0xff) form, an empty object as a huge-form "
@@ -16,13 +18,20 @@ def run(ctx):
     sets = codec.REPO_SETS_ALL if thorough else codec.REPO_SETS_QUICK
     pkgs = [(p, None) for p in codec.repo_packages(ctx, sets, ["tl2all"] + (["split", "nobytes"] if thorough else []))]
     pkgs += codec.random_packages(ctx, 20 if thorough else 2, "c13")
+    # the crafted TL2-origin schema (reserved fields at presence-block boundaries, optional and bit fields in later blocks)
+    xp = os.path.join(ctx.work, "crafted_c13_shapes.tl2")
+    with open(xp, "w") as f:
+        f.write(codec.tl2_shapes())
+    sp = codec.build_pkg(ctx, "crafted_c13_shapes_tl2", [xp], "tl2all")
+    sp.schema = "crafted:shapes.tl2"
+    pkgs.append((sp, None))
     tot = {}
     for p, sch in pkgs:
         env = {"VERIF_VALUES": 300 if thorough else 40}
         t, _ = codec.run_mode(ctx, p, "c13", env=env, reclass=codec.sanity_reclass(sch) if sch else None)
         for k, v in t.items():
             tot[k] = tot.get(k, 0) + v
-        if p.config == "tl2all" and p.schema == "casestl2":
+        if p.config == "tl2all" and p.schema in ("casestl2", "crafted:shapes.tl2"):
             # the interpreter that supplies the byte roles does not model TL2-origin types (finding F35, C12): no depth transformations on this set
             ctx.cov.setdefault("counters", {})["deep_sets_skipped_(interpreter_does_not_model_tl2_origin_types)"] = 1
         elif p.config == "tl2all":
